@@ -346,10 +346,13 @@ pub fn c11(args: &Args) -> Acc {
             cfg.rst = (k / 128) % 2 == 0;
             if (k / 256) % 2 == 1 {
                 let (fw, fh) = m.fb();
-                cfg.w = fw - 7;
-                cfg.h = fh - 20;
-                cfg.ox = 3;
-                cfg.oy = 11;
+                // real-world module sizes and an arbitrary one, centred / offset
+                let sizes: [(u16, u16); 8] = [(fw - 7, fh - 20), (80, 160), (128, 128), (128, 160), (135, 240), (240, 240), (172, 320), (240, 280)];
+                let (w, h) = sizes[(k % 8) as usize];
+                cfg.w = w.min(fw);
+                cfg.h = h.min(fh);
+                cfg.ox = (fw - cfg.w) / 2;
+                cfg.oy = (fh - cfg.h) / 2;
             }
             cfg.spi_buf = [64, 3, 17, 512][(k % 4) as usize].max(if m.bits() == 16 { 2 } else { 3 });
             let supported = m.supports(t.kind());
@@ -389,20 +392,25 @@ pub fn c11(args: &Args) -> Acc {
                     }
                     // the value returned by Model::init is the display's cached copy: re-setting the
                     // same orientation must put the same byte on the bus
-                    let rep = s.step(&Op::SetOrientation(cfg.ori));
-                    let want = spec::madctl(cfg.bgr, cfg.ori, cfg.refresh & 1 != 0, cfg.refresh & 2 != 0);
+                    // (a different orientation, so that a driver which skips redundant writes still
+                    // has to send; colour order and refresh bits come from the cached copy)
+                    let other = Ori((cfg.ori.0 + 1 + (k % 7) as u8) % 8);
+                    let rep = s.step(&Op::SetOrientation(other));
+                    let want = spec::madctl(cfg.bgr, other, cfg.refresh & 1 != 0, cfg.refresh & 2 != 0);
                     let got = rep.log.iter().find_map(|e| match e {
                         PEv::Cmd { op: 0x36, params, .. } if params.len() == 1 => Some(params[0]),
                         _ => None,
                     });
-                    if rep.result == CallResult::Ok && got != Some(want) {
-                        a.violate(
+                    match got {
+                        Some(b) if rep.result == CallResult::Ok && b != want => a.violate(
                             "builder",
                             idx,
                             format!("cached-address-mode/{}", m.name()),
-                            format!("set_orientation(same) sent {:?}, init had programmed {:#04x}: the address mode returned by Model::init is not the one sent", got, want),
+                            format!("the first set_orientation({}) after init sent {:#04x}; colour order and refresh order as initialised encode to {:#04x}: the address mode returned by Model::init is not the one it sent", other.name(), b, want),
                             cfg.to_json(),
-                        );
+                        ),
+                        Some(_) => a.count("cached_address_mode_checked", 1),
+                        None => a.count("cached_address_mode_not_observable", 1),
                     }
                     a.count("post_init_states_checked", 1);
                     a.count("init_commands_decoded", s.init_log.len() as u64);
@@ -560,6 +568,13 @@ pub fn c13(args: &Args) -> Acc {
         }
         let len = rng.range(1, 60);
         let mut hist: Vec<(Op, Option<u64>)> = Vec::new();
+        // now and then: several hundred consecutive sleeps (or wakes), cheap at the Interface level
+        if !cfg.tr.is_l2() && rng.chance(1, 40) {
+            let op = if rng.bool() { Op::Sleep } else { Op::Wake };
+            for _ in 0..rng.range(250, 530) {
+                hist.push((op.clone(), None));
+            }
+        }
         for _ in 0..len {
             let op = match rng.below(10) {
                 0..=2 => Op::Sleep,
@@ -569,8 +584,15 @@ pub fn c13(args: &Args) -> Acc {
                 8 => Op::ScrollOffset(rng.next() as u16),
                 _ => Op::Tearing(rng.below(3) as u8),
             };
-            // sometimes fail the first low-level operation(s) of a sleep / wake
-            let fail = if matches!(op, Op::Sleep | Op::Wake) && rng.chance(1, 6) { Some(rng.below(4)) } else { None };
+            // sometimes fail one of the first low-level operations of a sleep / wake, and now and
+            // then of any other call (which must not disturb the sleep bookkeeping either)
+            let fail = if matches!(op, Op::Sleep | Op::Wake) {
+                if rng.chance(1, 6) { Some(rng.below(4)) } else { None }
+            } else if rng.chance(1, 8) {
+                Some(rng.below(14))
+            } else {
+                None
+            };
             hist.push((op, fail));
         }
         let prog: Vec<Op> = hist.iter().map(|h| h.0.clone()).collect();
@@ -630,7 +652,11 @@ pub fn c13(args: &Args) -> Acc {
                 }
             }
             if faulted {
-                clean = false;
+                // a failed sleep / wake may or may not have reached the controller; a failed call of
+                // any other kind cannot have changed its sleep state
+                if matches!(op, Op::Sleep | Op::Wake) {
+                    clean = false;
+                }
                 // flag must be unchanged by a failed call
                 if s.rig.is_sleeping() != before {
                     a.violate("main", idx, format!("{}/flag-changed-by-failed-call", op.name()), format!("step {}: is_sleeping {} -> {}", i, before, s.rig.is_sleeping()), cj());
@@ -704,7 +730,16 @@ pub fn c10(args: &Args) -> Acc {
             po.allow_clear = false;
         }
         let draw = gen::gen_program(&mut rng, &twin_cfg, &po);
-        let mut prog: Vec<Op> = seq.iter().map(|o| Op::SetOrientation(*o)).collect();
+        let mut prog: Vec<Op> = Vec::new();
+        let asleep = rng.chance(1, 5);
+        if asleep {
+            // orientation changes while the panel sleeps must still arrive
+            prog.push(Op::Sleep);
+        }
+        prog.extend(seq.iter().map(|o| Op::SetOrientation(*o)));
+        if asleep {
+            prog.push(Op::Wake);
+        }
         prog.extend(draw.iter().cloned());
         let cj = || case_json(&cfg, &prog).with("final_orientation", fin.name());
         a.seen("initial_final_pairs", format!("{}->{}", cfg.ori.name(), fin.name()));
@@ -731,7 +766,7 @@ pub fn c10(args: &Args) -> Acc {
                 return;
             }
             if let Op::SetOrientation(o) = op {
-                let want = spec::madctl(cfg.bgr, *o, cfg.refresh & 1 != 0, cfg.refresh & 2 != 0);
+                let want = sa.want_madctl(*o);
                 if sa.panel.madctl != want {
                     a.violate("main", idx, "set_orientation/address-mode", format!("controller holds {:#04x}; colour order / refresh order preserved and orientation {} encode to {:#04x}", sa.panel.madctl, o.name(), want), cj());
                     return;
